@@ -316,6 +316,38 @@ pub fn run(ctx: &Ctx, rep: &mut Report) {
             }
         }
     }
+    // strings built from a pool of words (two random words, the all-'0' and the all-'w' word) of
+    // 2 / 4 / 8 / 16 characters with repetitions, behind 0 .. 9 other characters: implementations that
+    // convert a block at a time and take short cuts for zero or repeated blocks
+    {
+        let mut idx5 = 0u64;
+        for wi in 0..ctx.budget(40_000, 600_000) {
+            if !ctx.mine(idx5) {
+                idx5 += 1;
+                continue;
+            }
+            idx5 += 1;
+            let wl = *r.pick(&[2usize, 4, 8, 8, 8, 16]);
+            let word = |r: &mut crate::rng::Rng| -> Vec<u8> { (0..wl).map(|_| *r.pick(armor::ALPHABET)).collect() };
+            let pool: Vec<Vec<u8>> = vec![word(&mut r), word(&mut r), vec![b'0'; wl], vec![b'w'; wl]];
+            let mut t: Vec<u8> = (0..r.usize(0, 9)).map(|_| *r.pick(armor::ALPHABET)).collect();
+            if wi % 2 == 0 {
+                t.clear();
+            }
+            let mut prev = 0usize;
+            for i in 0..r.usize(3, 12) {
+                let pick = if i >= 2 && r.chance(1, 3) { prev } else { r.usize(0, 3) };
+                if i % 2 == 0 {
+                    prev = pick;
+                }
+                t.extend_from_slice(&pool[pick]);
+            }
+            if mon::is_noalloc() {
+                t.truncate(500);
+            }
+            check(rep, &t, r.below(6) as usize, "word-pool");
+        }
+    }
     // many bytes outside the alphabet in one string: their number at and around the points where
     // an 8/16/24-bit tally of rejected bytes would wrap to zero (8 and 16 bits in the quick tier; 2^32 in the thorough tier, one
     // shard of the std build), as one block, alone, or alternating with valid characters
